@@ -121,3 +121,41 @@ Proof.
   generalize (col j (x_fs x)). generalize (x_ee x).
   induction l as [|e es IH]; intros [|s ss]; simpl; auto. f_equal; auto.
 Qed.
+
+From BNP Require Import Base.PrimsFacts.
+(* ---- OneLineBuffer.join_fields / FastQBuffer.join_fields (round 6) ----
+   One output line per (entry, field): a buffer of  field_length + 1 + _line_offsets[i]  bytes; the field text from column
+   _line_offsets[i] up to the last byte, the line feed in the last byte, the header character in column 0 of line 0 —
+   read as: the line is [header] (when its offset leaves room for it: column gen_ol_header_col < offset) ++ text ++ [eol]. *)
+Definition ol_line (hdr off : Z) (fld : list Z) : list Z :=
+  (if gen_ol_header_col <? gen_ol_field_col off then [hdr] else []) ++ fld ++ [gen_ol_eol].
+Definition ol_join_src (hdr : Z) (offs : list Z) (flds : list (list Z)) : list Z := concat (zip_with (ol_line hdr) offs flds).
+Definition fq_fields_src (flds : list (list Z)) : list (list Z) :=
+  firstn (Z.to_nat gen_fq_plus_pos) flds ++ [[gen_fq_plus_char]] ++ skipn (Z.to_nat gen_fq_plus_pos) flds.
+
+(* the line has exactly the length the source allocates for it *)
+Lemma b_ol_line_len : forall hdr off fld, (off = 0 \/ off = 1) ->
+  len (ol_line hdr off fld) = gen_ol_line_add (gen_ol_line_len0 (len fld)) off.
+Proof.
+  intros hdr off fld [-> | ->]; unfold ol_line, gen_ol_line_add, gen_ol_line_len0, gen_ol_header_col, gen_ol_field_col.
+  - change (0 <? 0) with false. cbv iota. rewrite !len_app. change (len [gen_ol_eol]) with 1. change (len (@nil Z)) with 0. lia.
+  - change (0 <? 1) with true. cbv iota. rewrite !len_app. change (len [gen_ol_eol]) with 1. change (len [hdr]) with 1. lia.
+Qed.
+(* the model's rendering of a re-joined FASTQ / FASTA row IS the source's join with the class constants of this checkout *)
+Lemma b_fq_join : forall v flds, length flds = 3%nat ->
+  join_row v FFastq flds = ol_join_src gen_fq_header gen_fq_line_offsets (fq_fields_src flds).
+Proof.
+  intros v flds H. destruct flds as [|n [|s [|q [|? ?]]]]; try discriminate.
+  unfold join_row, ol_join_src, fq_fields_src, ol_line. change (Z.to_nat gen_fq_plus_pos) with 2%nat. cbn. rewrite <- ?app_assoc. reflexivity.
+Qed.
+Lemma b_fa_join : forall v flds, length flds = 2%nat ->
+  join_row v FFasta flds = ol_join_src gen_fa_header gen_fa_line_offsets flds.
+Proof.
+  intros v flds H. destruct flds as [|n [|s [|? ?]]]; try discriminate.
+  unfold join_row, ol_join_src, ol_line. cbn. rewrite <- ?app_assoc. reflexivity.
+Qed.
+(* ... and the reader uses the same class constants *)
+Lemma b_ol_read : forall v data,
+  read v FFastq data = option_map (fun x => SLazy x []) (from_oneline gen_fq_n_lines gen_fq_line_offsets data)
+  /\ read v FFasta data = option_map (fun x => SLazy x []) (from_oneline gen_fa_n_lines gen_fa_line_offsets data).
+Proof. intros; split; reflexivity. Qed.
